@@ -105,7 +105,10 @@ class FileAnonymizer:
                 "Cannot write output file; "
                 "output file is a directory ({})".format(out_file)
             )
-        with open(in_file, "r") as in_io, open(out_file, "w") as out_io:
+        # newline="\n": keep line terminators as they are (no universal newlines)
+        with open(in_file, "r", newline="\n") as in_io, open(
+            out_file, "w", newline="\n"
+        ) as out_io:
             self.anonymize_io(in_io, out_io)
 
     def anonymize_io(self, in_io, out_io):
@@ -217,7 +220,10 @@ def anonymize_files(
                     "Cannot write output file; "
                     "output file is a directory ({})".format(out_path)
                 )
-            with open(in_path, "r") as f_in, open(out_path, "w") as f_out:
+            # newline="\n": keep line terminators as they are (no universal newlines)
+            with open(in_path, "r", newline="\n") as f_in, open(
+                out_path, "w", newline="\n"
+            ) as f_out:
                 file_anonymizer.anonymize_io(f_in, f_out)
         except Exception:
             logging.error("Failed to anonymize file %s", in_path, exc_info=True)
